@@ -32,6 +32,7 @@
 import FianoModel.Uefi.ParseSized
 import FianoModel.Uefi.SectionLemmas
 import FianoModel.Uefi.EditTie
+import FianoModel.Uefi.CodeTie   -- T1 code-as-code tie (wp-t1x): audited as a tie module of this check
 
 namespace Fiano.Uefi.C02
 open EditArith
